@@ -403,6 +403,23 @@ def owner_ops(sess, op, step, stats, log):
     log.append(["owner", step, kind])
 
 
+def integration_failure_outside_domain(sess, d, free, exc, stats):
+    """PyGOM raised IntegrationError.  What it must do when an integrator fails is not stated by any
+    property; the call is void if the reference agrees that (theta, x0) leaves the domain (no reference
+    solution, a negative state - rates have denominators like 1+S - or an exploding one)."""
+    if type(exc).__name__ != "IntegrationError":
+        return False
+    try:
+        theta, x0 = full_theta(sess, d, list(free))
+        X = refsolve.solve(sess.ref, theta, x0, sess.t0, d["obs_t"])
+        bad = (not np.all(np.isfinite(X))) or np.abs(X).max() > 1e4 or X.min() < -1e-6
+    except (refsolve.RefSolveError, Exception):
+        bad = True
+    if bad:
+        stats["integration_failure_outside_domain"] = stats.get("integration_failure_outside_domain", 0) + 1
+    return bad
+
+
 def loss_call(sess, op, step, out, stats, log):
     """cost / residual / costIV against RefLoss on RefSolve (C06)."""
     obj = sess.loss.get(op["id"])
@@ -425,6 +442,8 @@ def loss_call(sess, op, step, out, stats, log):
     except core.RunTimeout:
         raise
     except Exception as e:
+        if integration_failure_outside_domain(sess, d, free, e, stats):
+            return
         out.append(core.crash_failure("C06", e, step, "%s.%s" % (d["cls"], what)))
         return
     stats["cost_calls"] = stats.get("cost_calls", 0) + 1
@@ -531,6 +550,8 @@ def grad_call(sess, op, step, out, stats, log):
     except core.RunTimeout:
         raise
     except Exception as e:
+        if integration_failure_outside_domain(sess, d, list(free), e, stats):
+            return
         out.append(core.crash_failure("C07", e, step, label))
         return
     _sync_model_theta(sess, d, list(free))
@@ -667,6 +688,10 @@ def fit_call(sess, op, step, out, stats, log):
     except core.RunTimeout:
         raise
     except Exception as e:
+        if type(e).__name__ == "IntegrationError":
+            # the optimiser stepped to parameters at which the integrator gives up: outside the properties
+            stats["integration_failure_outside_domain"] = stats.get("integration_failure_outside_domain", 0) + 1
+            return
         out.append(core.crash_failure("C18", e, step, "%s.fit" % d["cls"]))
         return
     _sync_model_theta(sess, d, list(xhat))
@@ -707,6 +732,8 @@ def curv_call(sess, op, step, out, stats, log):
     except core.RunTimeout:
         raise
     except Exception as e:
+        if integration_failure_outside_domain(sess, d, list(free), e, stats):
+            return
         out.append(core.crash_failure("C20", e, step, "%s.%s" % (d["cls"], which)))
         return
     _sync_model_theta(sess, d, list(free))
